@@ -237,6 +237,28 @@ else:
     HUB.defined("HC_{n}", True)
 '''
 
+HIER_TWO_BASES = '''
+class HL_{n}(icontract.DBC):
+    @icontract.snapshot(lambda x: ("left", x), name={nm1!r})
+    @icontract.ensure(lambda OLD, result: True)
+    def f(self, x):
+        return x
+class HR_{n}(icontract.DBC):
+    @icontract.snapshot(lambda x: ("right", x), name={nm2!r})
+    @icontract.ensure(lambda OLD, result: True)
+    def f(self, x):
+        return x
+try:
+    class HJ_{n}(HL_{n}, HR_{n}):
+        {own}
+        def f(self, x):
+            return x
+except BaseException as HUB_err:
+    HUB.definition_failed("HJ_{n}", HUB_err)
+else:
+    HUB.defined("HJ_{n}", True)
+'''
+
 OLD_UNKNOWN = '''
 @icontract.snapshot(lambda x: x, name="known")
 @icontract.ensure(lambda OLD, result: OLD.{attr} is not None, error=ValueError("never raised"))
@@ -266,6 +288,14 @@ def run_misuse(w) -> None:
         hn += 1
         src.append(HIER_MISUSE.format(n=hn, nm1=nm1, nm2=nm2, deco1="", deco2=""))
         expect["HC_{}".format(hn)] = ("hierarchy", "inherited-name-{}-{}".format(nm1, nm2), True, want)
+    # the same name coming from two different bases (two different captures: one of them would be lost)
+    jn = 0
+    for nm1, nm2, want in (("a", "a", "ValueError"), ("a", "b", None), ("x", "x", "ValueError")):
+        for own_tag, own in (("plain-override", ""), ("override-with-ensure", "@icontract.ensure(lambda result: True)"),
+                             ("override-with-own-snapshot", "@icontract.snapshot(lambda x: 3, name='own')\n        @icontract.ensure(lambda OLD: True)")):
+            jn += 1
+            src.append(HIER_TWO_BASES.format(n=jn, nm1=nm1, nm2=nm2, own=own))
+            expect["HJ_{}".format(jn)] = ("hierarchy-two-bases", "names-{}-{}-{}".format(nm1, nm2, own_tag), True, want)
     loaded = prog.load_source("".join(src), w.scratch())
     try:
         hub = loaded.hub
